@@ -28,7 +28,7 @@ FONTSIZE = 8
 
 # --------------------------------------------------------------------------- alphabet
 SUBTYPES = ["Type1", "TrueType", "MMType1", "Type3"]
-ENCODINGS = ["WinAnsiEncoding", None, "StandardEncoding", "MacRomanEncoding", "PDFDocEncoding", "FooEncoding"]
+ENCODINGS = ["WinAnsiEncoding", None, "StandardEncoding", "MacRomanEncoding", "PDFDocEncoding", "FooEncoding", "MacExpertEncoding"]
 ENCFORMS = ["name", "dict"]
 
 
@@ -90,6 +90,9 @@ WIDTHS = [
     ("std14", "Helvetica", None, None, None),
     ("std14", "Times-Roman", None, None, None),
     ("std14", "Courier", None, None, None),
+    # the two standard-14 fonts with an encoding of their own (ISO 32000-1 9.6.6.1, Annex D.5 / D.6)
+    ("std14", "Symbol", None, None, None),
+    ("std14", "ZapfDingbats", None, None, None),
     ("std14+widths", "Helvetica", 32, _w(95, lambda i: 1000 - 2 * i), 444),
     ("std14+widths", "Arial", 32, _w(95, lambda i: 300 + 5 * i), 444),
     # a standard-14 name with explicit widths some of which are 0 (must not fall back to the built-in metric)
@@ -131,8 +134,8 @@ BOUNDS = {"quick": {"deviations": 3, "shards": 96}, "thorough": {"deviations": 5
 
 META = {
     "rule": (
-        "font family: every choice vector over (subtype 4, base encoding 6, encoding form 2, Differences 11, ToUnicode 9, "
-        "widths 12, Type3 FontMatrix 5, embedded Type 1 header 5, spelling 2) with at most `deviations` non-default "
+        "font family: every choice vector over (subtype 4, base encoding 7, encoding form 2, Differences 11, ToUnicode 9, "
+        "widths 14, Type3 FontMatrix 5, embedded Type 1 header 5, spelling 2) with at most `deviations` non-default "
         "choices (default = Type1, WinAnsi name, no Differences, no ToUnicode, Widths from 32 + MissingWidth), minus the "
         "combinations that are not fonts (Type3 x standard-14, FontMatrix on non-Type3, FontFile on TrueType/Type3/"
         "standard-14, ...); each surviving vector is one case = one generated PDF in which all 256 codes are shown; "
@@ -146,10 +149,13 @@ META = {
     "assumptions": [
         "glyph list, Latin encoding rows and standard-14 metrics are data read from pdfminer's own modules; only the "
         "Latin tables are cross-checked against independent sources (cp1252, mac_roman, frozen Annex D PDFDocEncoding, "
-        "CFF standard-string order); the Adobe glyph list and the AFM metrics have no independent source offline",
+        "CFF standard-string order, and the encoding arrays / glyph list of an offline pdf.js 2.14 copy frozen in "
+        "data/c06_pdfjs_tables.json, which also supplies MacExpert, Symbol and ZapfDingbats); the 81 multi-code-point "
+        "glyph-list entries and the AFM metrics have no independent source offline (ZapfDingbats metrics are read "
+        "through pdfminer's own chr(N)-for-aN keying)",
         "lower-case hexadecimal uni/u glyph names are not judged (the repository test-suite pins their acceptance)",
-        "MacExpertEncoding, Symbol/ZapfDingbats built-in encodings, TrueType fonts without /Encoding or with an "
-        "embedded program's own cmap, and CFF (FontFile3) built-in encodings are not generated",
+        "symbolic TrueType fonts read through the embedded program's own cmap, CFF (FontFile3) built-in encodings and "
+        "Differences naming ZapfDingbats glyphs (aN) are not generated",
         "text of codes that depend on an unknown base-encoding name, and of codes outside Differences in a Type3 "
         "encoding without BaseEncoding, is not judged (counted under not_judged)",
         "fonts beyond the stated number of simultaneous deviations from the default font are not explored",
@@ -229,8 +235,16 @@ def build(vec: Tuple[int, ...]):
     builtin: Optional[Dict[int, str]] = None
     if ff is not None:
         builtin = dict(R.latin_names("StandardEncoding")) if ff[0] == "standard" else {c: n for c, n in ff[1] if n != ".notdef"}
+    own = basefont if (wkind == "std14" and basefont in ("Symbol", "ZapfDingbats")) else None
+    agl_table = R.zapf_table() if own == "ZapfDingbats" else None
+    if own is not None:
+        builtin = R.pdfjs_names(own)
     has_encoding_key = not (enc is None and form == "name")
-    if not has_encoding_key:
+    if own is not None and not has_encoding_key:
+        names, basesrc = dict(builtin), "builtin-" + own
+    elif own is not None and enc is None:
+        names, basesrc = dict(builtin), "implicit-builtin-" + own
+    elif not has_encoding_key:
         if builtin is not None:
             names, basesrc = dict(builtin), "builtin"
         else:
@@ -247,11 +261,11 @@ def build(vec: Tuple[int, ...]):
         names, basesrc = {}, "unknown-base"
         judged = [False] * 256
     else:
-        names, basesrc = dict(R.latin_names(enc)), "base"
+        names, basesrc = dict(R.latin_names(enc)), ("base-macexpert" if enc == "MacExpertEncoding" else "base")
     for c in names:
         src[c] = basesrc
-    base_text = {c: R.agl_text(n) for c, n in names.items()}
-    if basesrc in ("unknown-base", "type3-empty", "implicit-builtin"):
+    base_text = {c: R.agl_text(n, agl_table) for c, n in names.items()}
+    if basesrc in ("unknown-base", "type3-empty", "implicit-builtin") or own is not None or enc == "MacExpertEncoding":
         # classification hint only (never judged): the table a kept "base" character would come from
         hint = {c: R.agl_text(n) for c, n in R.latin_names("StandardEncoding").items()}
         hint.update(base_text)
@@ -267,7 +281,7 @@ def build(vec: Tuple[int, ...]):
                     was = src.get(code)
                     if was is None:
                         # pdfminer lays Differences over *some* table even when the model's base is empty/unknown
-                        src[code] = "diff-over-" + basesrc if basesrc in ("unknown-base", "type3-empty", "implicit-builtin") else "diff"
+                        src[code] = "diff-over-" + basesrc if (basesrc in ("unknown-base", "type3-empty", "implicit-builtin") or own is not None or enc == "MacExpertEncoding") else "diff"
                     elif not was.startswith("diff"):
                         src[code] = "diff-over-" + was
                     judged[code] = True
@@ -299,7 +313,7 @@ def build(vec: Tuple[int, ...]):
     model = []
     for code in range(256):
         name = names.get(code)
-        glyph_text = R.agl_text(name) if name is not None else ""
+        glyph_text = R.agl_text(name, agl_table) if name is not None else ""
         if code in tu:
             text, tsrc, jt = tu[code], "tounicode", True
         elif glyph_text:
@@ -308,7 +322,16 @@ def build(vec: Tuple[int, ...]):
             text, tsrc, jt = "(cid:%d)" % code, ("undefined-name:" + src[code]) if name is not None else "unencoded:" + basesrc, judged[code]
         if name is not None and R.has_lowercase_hex_form(name):
             jt = False
-        if metrics is not None:
+        if metrics is not None and basefont == "ZapfDingbats":
+            # pdfminer's ZapfDingbats metrics (from the AFM) are keyed chr(N) for the glyph named aN, ' ' for space
+            import re as _re
+
+            mm = _re.fullmatch(r"a(\d+)", name or "")
+            key = chr(int(mm.group(1))) if mm else (glyph_text or None)
+            w = metrics.get(key, 0) if key else 0
+            wsrc = "std14-metric-zapfdingbats"
+            jw = judged[code]
+        elif metrics is not None:
             w = metrics.get(glyph_text, 0) if glyph_text else 0
             wsrc = "std14-metric"
             jw = judged[code]
@@ -382,6 +405,11 @@ def classify(kind: str, m: Dict[str, Any], obs_text: str, obs_adv: float, ctx: D
     if kind == "text":
         tsrc = m["tsrc"]
         core = name.split(".")[0] if name else ""
+        if tsrc.endswith("base-macexpert"):
+            return "C06/macexpert-base-encoding-unknown"
+        for own in ("Symbol", "ZapfDingbats"):
+            if tsrc.endswith("builtin-" + own):
+                return f"C06/{own.lower()}-builtin-encoding-ignored"
         if ctx.get("fontfile") == "standard" and tsrc in ("builtin", "implicit-builtin"):
             return "C06/type1-header-named-encoding-ignored"
         if tsrc.startswith("diff") and "_" in core and any(R.agl_component(c) == "" for c in core.split("_")):
@@ -396,6 +424,12 @@ def classify(kind: str, m: Dict[str, Any], obs_text: str, obs_adv: float, ctx: D
             return "C06/agl-uni-prefix-not-anchored" if name and name.startswith("u") else "C06/text:undefined-name-got-text"
         return "C06/text:" + tsrc.split(":")[0]
     wsrc = m["wsrc"]
+    if ctx.get("macexpert") and wsrc.startswith("std14-metric"):
+        return "C06/macexpert-base-encoding-unknown"
+    if ctx.get("builtin14") == "Symbol" and wsrc == "std14-metric":
+        return "C06/symbol-builtin-encoding-ignored"
+    if wsrc == "std14-metric-zapfdingbats":
+        return "C06/zapfdingbats-builtin-encoding-ignored" if ctx.get("builtin14") else "C06/zapfdingbats-metric-not-found-for-glyph"
     if wsrc.split("/")[0].endswith("widths") and m["adv"] == 0 and obs_adv != 0:
         return "C06/zero-Widths-entry-treated-as-absent"
     if wsrc.startswith("std14-explicit"):
@@ -476,7 +510,9 @@ def unjmodel(j):
 
 def ctx_of(vec) -> Dict[str, Any]:
     ff = FONTFILES[vec[7]]
-    return {"fontfile": ff[0] if ff else None, "basefont": WIDTHS[vec[5]][1] if WIDTHS[vec[5]][0] == "std14" else None}
+    bf = WIDTHS[vec[5]][1] if WIDTHS[vec[5]][0] == "std14" else None
+    return {"fontfile": ff[0] if ff else None, "basefont": bf, "macexpert": ENCODINGS[vec[1]] == "MacExpertEncoding",
+            "builtin14": bf if (bf in ("Symbol", "ZapfDingbats") and ENCODINGS[vec[1]] is None) else None}
 
 
 # ------------------------------------------------------------------ process-wide tables
@@ -704,6 +740,41 @@ def run_tables(st) -> None:
         st.case(("pdfdoc-utils", c), nontrivial=c in t, outcome=("utils", c, PDFDocEncoding[c]))
         if c in t and PDFDocEncoding[c] != chr(t[c]):
             st.violation(f"C06/table:utils.PDFDocEncoding:{c}", {"family": "tables", "encoding": "utils.PDFDocEncoding", "code": c}, chr(t[c]), PDFDocEncoding[c], "utils.PDFDocEncoding vs Annex D.2")
+    # glyph names per code and the glyph list itself against the third-party tables (pdf.js, see mc/refs/fonts_ref.py)
+    pj = R.pdfjs_tables()
+    for enc in ("StandardEncoding", "MacRomanEncoding", "WinAnsiEncoding"):
+        mine = R.latin_names(enc)
+        theirs = {c: n for c, n in enumerate(pj["encodings"][enc]) if n}
+        for c in range(256):
+            st.states += 1
+            st.transitions += 1
+            st.traces += 1
+            a, b = mine.get(c), theirs.get(c)
+            if a is None and b is not None:
+                # pdf.js fills WinAnsi's unused codes with bullet and serves Mac OS Roman's additions under MacRoman
+                st.not_judged["table cell defined only by the third-party table (lenient fill-ins)"] += 1
+                continue
+            st.case(("names", enc, c), nontrivial=a is not None, outcome=(enc, c, a))
+            same = a == b or (a, b) in (("nbspace", "space"), ("space", "nbspace"))
+            if not same:
+                st.violation(f"C06/table-names:{enc}:{c}", {"family": "tables", "encoding": enc + ":names", "code": c}, b, a, f"{enc} code {c}: latin_enc row names {a!r}, pdf.js table {b!r}")
+    from pdfminer.glyphlist import glyphname2unicode
+
+    theirs_gl = pj["glyphlist"]
+    bad = []
+    for name in sorted(glyphname2unicode):
+        st.states += 1
+        st.transitions += 1
+        st.traces += 1
+        if name not in theirs_gl:
+            st.not_judged["glyph-list entry absent from the third-party list (multi-code-point entries)"] += 1
+            continue
+        st.case(("glyphlist", name), nontrivial=True, outcome=("gl", name, glyphname2unicode[name]))
+        if glyphname2unicode[name] != chr(theirs_gl[name]):
+            bad.append(name)
+    for name in bad:
+        sig = f"C06/glyphlist:{name}" if len(bad) <= 16 else "C06/glyphlist:many"
+        st.violation(sig, {"family": "tables", "encoding": "glyphlist", "code": name}, chr(theirs_gl[name]), glyphname2unicode[name], "Adobe glyph list entry vs pdf.js glyph list")
     # StandardEncoding: names in code order are the CFF standard strings SID 1..149
     std = R.latin_names("StandardEncoding")
     order = [std[c] for c in sorted(std)]
@@ -978,7 +1049,7 @@ def replay(case):
         st.MAX_VIOL_PER_SIG = 10**6
         run_tables(st)
         for v in st.violations:
-            if v["case"]["encoding"] == case["encoding"] and v["case"]["code"] == case["code"]:
+            if v["case"].get("encoding") == case["encoding"] and v["case"].get("code") == case["code"]:
                 out.append({"signature": v["signature"], "expected": repr(v["expected"]), "observed": repr(v["observed"])})
     elif fam == "leak":
         tables_changed()
